@@ -300,7 +300,15 @@ func (c *StoreCfg) DrawEvent(t *rapid.T) *mocrelay.Event {
 	// generic tags
 	n := rapid.IntRange(0, 3).Draw(t, "ntags")
 	for i := 0; i < n; i++ {
-		switch rapid.IntRange(0, 11).Draw(t, "tagkind") {
+		switch rapid.IntRange(0, 12).Draw(t, "tagkind") {
+		case 12:
+			// tag values are arbitrary text (control characters, quotes, astral code points), in
+			// indexable and in other tags, in the value and in further elements
+			if c.UnicodeText {
+				ev.Tags = append(ev.Tags, mocrelay.Tag{rapid.SampledFrom([]string{"t", "r", "alt"}).Draw(t, "utagname"), UnicodeString(5).Draw(t, "utagval"), UnicodeString(3).Draw(t, "utagthird")})
+			} else {
+				ev.Tags = append(ev.Tags, mocrelay.Tag{"r", "x"})
+			}
 		case 11:
 			// the ends of the single-letter range (indexable like any other letter)
 			ev.Tags = append(ev.Tags, mocrelay.Tag{rapid.SampledFrom([]string{"z", "Z", "A", "b", "y"}).Draw(t, "edgename"), rapid.SampledFrom([]string{"x", "y"}).Draw(t, "edgeval")})
